@@ -30,6 +30,9 @@ pub struct Caller {
     /// calling (0 = call at once)
     #[serde(default)]
     pub recheck_after_ms: u64,
+    /// keep the resolved call future alive this long before dropping it
+    #[serde(default)]
+    pub hold_finished_ms: u64,
 }
 
 #[derive(Clone, Debug, Serialize, Deserialize, PartialEq)]
@@ -69,6 +72,7 @@ pub fn gen(rng: &mut Rng) -> Scn {
             drop_unpolled: faulty && rng.chance(1, 10),
             via: if two { rng.below(2) as u8 } else { 0 },
             recheck_after_ms: if rng.chance(1, 6) { *rng.pick(&[1u64, 5, 10, 20]) } else { 0 },
+            hold_finished_ms: if rng.chance(1, 8) { *rng.pick(&[5u64, 20, 60]) } else { 0 },
         });
     }
     Scn {
@@ -104,7 +108,7 @@ pub fn valid(s: &Scn) -> bool {
         && s.beta <= 10
         && !s.callers.is_empty()
         && s.callers.len() <= 12
-        && s.callers.iter().all(|c| c.start_ms <= 300 && c.beh.lat_ms <= 200 && c.beh.yields <= 4 && c.via <= 1 && c.recheck_after_ms <= 50)
+        && s.callers.iter().all(|c| c.start_ms <= 300 && c.beh.lat_ms <= 200 && c.beh.yields <= 4 && c.via <= 1 && c.recheck_after_ms <= 50 && c.hold_finished_ms <= 100)
         && s.knobs.jumps.is_empty()
         && s.inner_capacity.map(|c| c >= 1 && c <= 4).unwrap_or(true)
 }
@@ -158,6 +162,7 @@ pub fn run(s: &Scn, ctx: &mut RunCtx) -> RunOutput {
             let svc = if via == 0 { base.clone() } else { base_b.clone() };
             let drop_unpolled = i < n && scn.callers[i].drop_unpolled;
             let recheck = if i < n { scn.callers[i].recheck_after_ms } else { 0 };
+            let hold_finished = if i < n { scn.callers[i].hold_finished_ms } else { 0 };
             let make: Box<dyn FnOnce() -> LocalFut> = Box::new(move || {
                 Box::pin(async move {
                     let mut svc = svc;
@@ -190,7 +195,14 @@ pub fn run(s: &Scn, ctx: &mut RunCtx) -> RunOutput {
                                 drop(f);
                                 return Out::err("DroppedUnpolled", None);
                             }
-                            f.await
+                            let mut f = Box::pin(f);
+                            let r = f.as_mut().await;
+                            if hold_finished > 0 {
+                                world::fault("hold_finished_future");
+                                tokio::time::sleep(Duration::from_millis(hold_finished)).await;
+                            }
+                            drop(f);
+                            r
                         }
                     };
                     match r {
